@@ -1,5 +1,6 @@
 (* C07 property theorems *)
 From Coq Require Import ZArith List Bool.
+From EP Require Gen.C07Shape.
 From EP Require Import C07.Model C09.Model C09.Proofs.
 Import ListNotations.
 
@@ -49,7 +50,19 @@ Theorem C07_type_table_old_disagreements :
 Proof. vm_compute. reflexivity. Qed.
 Print Assumptions C07_type_table_old_disagreements.
 
+(* the same for general comparisons: XPTY0004 exactly when the value comparison that applies after the untypedAtomic
+   conversion rules is undefined *)
+Theorem C07_general_type_table : forall v31 o a b, gc_defined v31 o a b = gc_spec v31 o a b.
+Proof. intros v31 o a b. destruct v31, o, a, b; reflexivity. Qed.
+Print Assumptions C07_general_type_table.
+
 Example C07_nonvacuous : ebv [IStr 0] = EBV false /\ ebv [INode; IOther] = EBV true /\ ebv [INum false; INum false] = FORG0006 /\
   vc_defined true Lt TInt TDbl = true /\ vc_defined false Eq TBool TInt = false /\ vc_defined true Lt THex THex = true /\
   vc_defined false Lt THex THex = false /\ general Z Z.ltb [5; 1]%Z [0; 3]%Z = true.
 Proof. vm_compute. repeat split; reflexivity. Qed.
+
+(* the statements of /repo that the decision tables of C07/Model.v mirror are present in the source as read on this run
+   (T-data, harness/shape.py -> Gen/C07Shape.v) *)
+Theorem C07_source_shape : Gen.C07Shape.shape_ok = true.
+Proof. reflexivity. Qed.
+Print Assumptions C07_source_shape.
